@@ -18,6 +18,7 @@ func LimitReader
     as(limited, "*limitedReader").n == n
 
 func (*limitedReader).Read
+  modifies lr.n, elems(p)
   requires lr != nil && lr.r != nil && lr.n <= lr.limit
   ensures inv: lr.n <= lr.limit && lr.limit == old(lr.limit) && lr.r == old(lr.r)
   ensures exhausted: old(lr.n) == 0 ==>
@@ -36,6 +37,7 @@ func NewTruncatedWriter
   ensures tw != nil && tw.w == w && tw.limit == limit && tw.offset == 0
 
 func (*TruncatedWriter).Write
+  modifies w.offset
   requires w != nil && w.w != nil && w.offset <= w.limit
   ensures reports_all: n == len(b)
   ensures inv: w.offset <= w.limit && w.limit == old(w.limit) && w.w == old(w.w)
